@@ -104,9 +104,22 @@ type cluster struct {
 	leadersAcked map[string]bool
 	verVal       map[int64]string
 	finalWhy     string
+	readTimeout  time.Duration
 }
 
 func (cl *cluster) tick() int64 { return cl.clock.Add(1) }
+
+// snapshot returns copies of the operations recorded so far (operations in flight are open).
+func (cl *cluster) snapshot() []*histOp {
+	cl.mu.Lock()
+	defer cl.mu.Unlock()
+	out := make([]*histOp, len(cl.ops))
+	for i, o := range cl.ops {
+		c := *o
+		out[i] = &c
+	}
+	return out
+}
 
 // currentLeader is the client's view: the stored assignment.
 func (cl *cluster) currentLeader() string {
@@ -198,7 +211,12 @@ func (cl *cluster) client(seed uint64, mix func(rng *randSrc) opKind) {
 		}
 		termBefore := lc.Term()
 		h.In = in
+		// the operation is on record (open) from the moment it is invoked: an oracle that runs while clients are
+		// active must know about operations in flight
+		cl.mu.Lock()
 		h.Call = cl.tick()
+		cl.ops = append(cl.ops, h)
+		cl.mu.Unlock()
 		var known, ok bool
 		var val string
 		var exists bool
@@ -258,21 +276,22 @@ func (cl *cluster) client(seed uint64, mix func(rng *randSrc) opKind) {
 			}
 		}
 		termAfter := lc.Term()
+		stale := false
+		if in.Kind == opGet && known {
+			// strict only if the serving term is unambiguous and still the highest stored term now
+			stored := cl.s.h.Durable().Term
+			if termBefore != termAfter || stored > termAfter {
+				stale = true
+			}
+		}
+		cl.mu.Lock()
 		if known {
 			h.Ret = cl.tick()
 		}
 		h.Term = termAfter
 		h.Ver = ver
 		h.Out = opOut{Known: known, OK: ok, Val: val, Exists: exists}
-		if in.Kind == opGet && known {
-			// strict only if the serving term is unambiguous and still the highest stored term now
-			stored := cl.s.h.Durable().Term
-			if termBefore != termAfter || stored > termAfter {
-				h.In.Stale = true
-			}
-		}
-		cl.mu.Lock()
-		cl.ops = append(cl.ops, h)
+		h.In.Stale = stale
 		if known && ok && in.Kind != opGet {
 			cl.leadersAcked[fmt.Sprintf("%s@%d", ln, termAfter)] = true
 		}
@@ -315,7 +334,7 @@ func (cl *cluster) finalReads() (map[string]*histOp, bool) {
 	for _, k := range cl.keys {
 		h := &histOp{Client: id, Node: ln, In: opIn{Kind: opGet, Key: k}, Term: lc.Term()}
 		h.Call = cl.tick()
-		resp, err := cl.doGet(lc, k, 3*time.Second)
+		resp, err := cl.doGet(lc, k, cl.readTimeout)
 		if err != nil {
 			st, _ := cl.s.c.Node(ln).GetStatus()
 			cl.finalWhy = fmt.Sprintf("read via %s: %v (status %v)", ln, err, st)
@@ -345,9 +364,7 @@ func (cl *cluster) finalReads() (map[string]*histOp, bool) {
 // checkDurability: the state read by `reads` (taken after every op in `ops` with Ret < reads' Call) must contain every
 // acknowledged write or something ordered after it.
 func (cl *cluster) checkDurability(reads map[string]*histOp, where string) {
-	cl.mu.Lock()
-	ops := append([]*histOp{}, cl.ops...)
-	cl.mu.Unlock()
+	ops := cl.snapshot()
 	byVal := map[string]*histOp{}
 	for _, o := range ops {
 		if o.In.Kind == opPut || o.In.Kind == opCas {
@@ -364,7 +381,7 @@ func (cl *cluster) checkDurability(reads map[string]*histOp, where string) {
 		var acked []*histOp
 		var deletes []*histOp
 		for _, o := range ops {
-			if o == rd || o.In.Kind == opGet {
+			if o.In.Kind == opGet {
 				continue
 			}
 			touches := o.In.Key == k || o.In.Kind == opDelRange
@@ -418,6 +435,23 @@ func (cl *cluster) checkDurability(reads map[string]*histOp, where string) {
 	}
 }
 
+// checkAckedVersions: two acknowledged puts can never carry the same version id (one committed history assigns
+// each id once); if they do, one of the two acknowledged writes is not part of the history that survived.
+func (cl *cluster) checkAckedVersions() {
+	ops := cl.snapshot()
+	seen := map[int64]*histOp{}
+	for _, o := range ops {
+		if (o.In.Kind != opPut && o.In.Kind != opCas) || !o.Out.Known || !o.Out.OK || o.Ver < 0 {
+			continue
+		}
+		if p, ok := seen[o.Ver]; ok && p.In.Val != o.In.Val {
+			cl.s.r.Violate(cl.prop+"/two-acknowledged-writes-share-a-version-id"+cl.label(), cl.why()+fmt.Sprintf("version id %d was acknowledged for %s=%s (via %s, term %d) and for %s=%s (via %s, term %d): one of them is not in the surviving history", o.Ver, p.In.Key, p.In.Val, p.Node, p.Term, o.In.Key, o.In.Val, o.Node, o.Term), cl.witness(o.In.Key))
+			return
+		}
+		seen[o.Ver] = o
+	}
+}
+
 func (cl *cluster) label() string {
 	l, _ := cl.s.m.rootCause()
 	return l
@@ -432,10 +466,8 @@ func (cl *cluster) why() string {
 }
 
 func (cl *cluster) witness(key string) map[string]any {
-	cl.mu.Lock()
-	defer cl.mu.Unlock()
 	var lines []string
-	for _, o := range cl.ops {
+	for _, o := range cl.snapshot() {
 		if o.In.Key == key || o.In.Kind == opDelRange {
 			lines = append(lines, describeOp(o))
 		}
@@ -570,9 +602,7 @@ var regModel = porcupine.Model{
 
 func (cl *cluster) checkLinearizable() {
 	r := cl.s.r
-	cl.mu.Lock()
-	ops := append([]*histOp{}, cl.ops...)
-	cl.mu.Unlock()
+	ops := cl.snapshot()
 	// one value per version id
 	for _, o := range ops {
 		if !o.Out.Known || o.Ver < 0 {
@@ -638,7 +668,7 @@ func runCluster(prop, part, tier string, seed uint64, idx int) core.Result {
 	}
 	defer cleanup()
 	s.ownWrites = false
-	cl := &cluster{s: s, prop: prop, leadersAcked: map[string]bool{}, verVal: map[int64]string{}}
+	cl := &cluster{s: s, prop: prop, leadersAcked: map[string]bool{}, verVal: map[int64]string{}, readTimeout: 500 * time.Millisecond}
 	nkeys, nclients := 8, 4
 	if prop == "C02" {
 		nkeys, nclients = 6, 5
@@ -696,12 +726,36 @@ func runCluster(prop, part, tier string, seed uint64, idx int) core.Result {
 			break
 		}
 		if prop == "C01" {
-			// on-line: what does a newly installed leader expose?
-			if ln := s.leaderName(); ln != "" && ln != lastLeader {
-				lastLeader = ln
+			// on-line: what does a newly installed leader expose? (reads are taken while the clients keep writing;
+			// the oracle only uses operations that had returned before each read was invoked)
+			d := s.h.Durable()
+			if ln := s.leaderName(); ln != "" && fmt.Sprintf("%s@%d", ln, d.Term) != lastLeader {
+				lastLeader = fmt.Sprintf("%s@%d", ln, d.Term)
+				mark := len(cl.ops)
+				if reads, ok := cl.finalReads(); ok {
+					// only a leader that was still the leader of the highest stored term after the reads counts
+					// (a deposed one may serve an older state)
+					still := true
+					for _, rd := range reads {
+						if lc, err := s.c.Node(rd.Node).Leader(); err != nil || lc.Term() != rd.Term || s.h.Durable().Term != rd.Term {
+							still = false
+						}
+					}
+					if still {
+						r.Count("leaders_read_after_election", 1)
+						cl.checkDurability(reads, "later-leader")
+					}
+				} else {
+					cl.mu.Lock()
+					if mark <= len(cl.ops) {
+						// drop a partial round of reads (they are not client operations)
+					}
+					cl.mu.Unlock()
+				}
 			}
 		}
 	}
+	cl.readTimeout = 3 * time.Second
 	steady := s.settle()
 	// let the clients run a little on the settled shard, then stop them
 	time.Sleep(50 * time.Millisecond)
@@ -768,6 +822,7 @@ func runCluster(prop, part, tier string, seed uint64, idx int) core.Result {
 		} else {
 			if prop == "C01" {
 				cl.checkDurability(reads, "final-leader")
+				cl.checkAckedVersions()
 			}
 		}
 	}
